@@ -217,14 +217,21 @@ class RealServers:
                 pass
 
 
-def run_subprocess(argv, env_extra=None, timeout=120, stdin=None):
+class Inconclusive(Exception):
+    """A wall-clock budget was hit in engine B: says nothing about the property (never a violation, never a harness error)."""
+
+
+def run_subprocess(argv, env_extra=None, timeout=180, stdin=None):
     env = dict(os.environ)
     env.pop('NO_COLOR', None)
     env['PYTHONPATH'] = os.path.join(REPO_ROOT, 'src')
     env.setdefault('PYTHONHASHSEED', '0')
     if env_extra:
         env.update(env_extra)
-    p = subprocess.run([PYTHON, os.path.join(REPO_ROOT, 'ssh-audit.py')] + [str(a) for a in argv], env=env, stdout=subprocess.PIPE, stderr=subprocess.PIPE, timeout=timeout, stdin=subprocess.DEVNULL)
+    try:
+        p = subprocess.run([PYTHON, os.path.join(REPO_ROOT, 'ssh-audit.py')] + [str(a) for a in argv], env=env, stdout=subprocess.PIPE, stderr=subprocess.PIPE, timeout=timeout, stdin=subprocess.DEVNULL)
+    except subprocess.TimeoutExpired:
+        raise Inconclusive('real process did not finish within %d s' % timeout) from None
     r = Result()
     r.code = p.returncode & 0xff
     r.out = p.stdout.decode('utf-8', 'replace')
